@@ -61,7 +61,10 @@ class ConcreteDom:
 class RealDom:
     """floats as exact reals: Fraction when concrete, z3 Real terms when symbolic."""
     name = 'real'
-    def __init__(s): s.ufs = {}
+    def __init__(s): s.ufs = {}; s.div0_fresh = False; s.nfresh = 0
+    def _div0(s):
+        if not s.div0_fresh: raise Unsupported('division by zero in real domain')
+        s.nfresh += 1; return z3.Real('div0_%d' % s.nfresh)
     def const(s, x, bits):
         if math.isnan(x) or math.isinf(x): raise Unsupported('non-finite constant in real domain')
         return Fraction(float(x))
@@ -77,7 +80,7 @@ class RealDom:
     def z(s, x): return z3.RealVal(str(x)) if isinstance(x, Fraction) else x
     def bin(s, op, a, b, bits):
         if isinstance(a, Fraction) and isinstance(b, Fraction):
-            if op == 'fdiv' and b == 0: raise Unsupported('division by zero in real domain')
+            if op == 'fdiv' and b == 0: return s._div0()
             return {'fadd': lambda: a + b, 'fsub': lambda: a - b, 'fmul': lambda: a * b, 'fdiv': lambda: a / b}[op]()
         if op == 'fmul':
             if isinstance(a, Fraction) and a == 0: return a
@@ -88,8 +91,9 @@ class RealDom:
             if isinstance(a, Fraction) and a == 0: return b
             if isinstance(b, Fraction) and b == 0: return a
         if op == 'fsub' and isinstance(b, Fraction) and b == 0: return a
+        if op == 'fdiv' and isinstance(a, Fraction) and a == 0: return a      # 0/x = 0 (x = 0 would be NaN: non-finite values are outside the real domain)
         if op == 'fdiv' and isinstance(b, Fraction):
-            if b == 0: raise Unsupported('division by zero in real domain')
+            if b == 0: return s._div0()
             return s.z(a) * z3.RealVal(str(1 / b))
         a, b = s.z(a), s.z(b)
         return {'fadd': lambda: a + b, 'fsub': lambda: a - b, 'fmul': lambda: a * b, 'fdiv': lambda: a / b}[op]()
@@ -168,7 +172,7 @@ class Frame:
 class State:
     def __init__(s):
         s.frames = []; s.pages = {}; s.sym = {}; s.pc = []; s.heap = 0x7000_0000_0000; s.allocs = {}
-        s.events = []; s.nins = 0; s.retval = None; s.ranges = {}; s.wlog = None; s.extra = {}
+        s.events = []; s.nins = 0; s.retval = None; s.ranges = {}; s.wlog = None; s.extra = {}; s.aver = 0
     def fork(s):
         n = State.__new__(State)
         n.frames = []
@@ -177,7 +181,7 @@ class State:
             n.frames.append(g)
         n.pages = {k: bytearray(v) for k, v in s.pages.items()}
         n.sym = dict(s.sym); n.pc = list(s.pc); n.heap = s.heap; n.allocs = dict(s.allocs); n.events = list(s.events); n.nins = s.nins; n.retval = None
-        n.ranges = dict(s.ranges); n.wlog = None if s.wlog is None else list(s.wlog); n.extra = copy.deepcopy(s.extra)
+        n.aver = s.aver; n.ranges = dict(s.ranges); n.wlog = None if s.wlog is None else list(s.wlog); n.extra = copy.deepcopy(s.extra)
         return n
 
 EXEC_HEAP = 0x7000_0000_0000
@@ -197,6 +201,7 @@ class Exec:
         self.intof = {}
         self._alloc_starts = [a for a, n in snap.allocs]
         self.branch_timeout = 30000
+        self.ext_prefix = []
 
     # ---------------- memory
     def _page(self, st, addr, create):
@@ -234,7 +239,7 @@ class Exec:
         if not self.snap.mapped(addr, n): raise MemError('%s of %d bytes at unmapped address 0x%x' % (what, n, addr))
     def _near_allocs(self, st, addr):
         ks = getattr(st, '_aks', None)
-        if ks is None or len(ks) != len(st.allocs): ks = st._aks = sorted(st.allocs)
+        if ks is None or getattr(st, '_aver', -1) != st.aver: ks = st._aks = sorted(st.allocs); st._aver = st.aver
         i = bisect.bisect_right(ks, addr) - 1
         return [(ks[i], st.allocs[ks[i]])] if i >= 0 else []
     def read_bytes(self, st, addr, n):
@@ -339,7 +344,7 @@ class Exec:
         offs, _ = self.m.layout(ty)
         for o, e, v in zip(offs, ty.els, val): self.store(st, addr + o, e, v)
     def malloc(self, st, n, zero=True):
-        a = (st.heap + 31) & ~15; st.heap = a + max(n, 1) + 32; st.allocs[a] = n
+        a = (st.heap + 31) & ~15; st.heap = a + max(n, 1) + 32; st.allocs[a] = n; st.aver += 1
         self.write_bytes(st, a, bytes(n))
         return a
 
@@ -677,6 +682,7 @@ class Exec:
             elif op == 'ret':
                 rv = self.val(st, fr, ins['ty'], ins['val']) if ins['val'] is not None else None
                 for a in fr.allocas: st.allocs.pop(a, None)
+                if fr.allocas: st.aver += 1
                 st.frames.pop()
                 if st.frames:
                     if fr.ret_to is not None: st.frames[-1].loc[fr.ret_to] = rv
@@ -704,8 +710,12 @@ class Exec:
                 if op == 'invoke': self.goto(st, fr, ins['normal'])
                 name = self.m.aliases.get(name, name)
                 self.fcount[name] = self.fcount.get(name, 0) + 1
-                if name in self.ext and self.ext[name] is not None:
-                    r = self.ext[name](self, st, fr, args, ins)
+                h = self.ext.get(name)
+                if h is None and self.ext_prefix:
+                    for pfx, hh in self.ext_prefix:
+                        if name.startswith(pfx): h = hh; break
+                if h is not None:
+                    r = h(self, st, fr, args, ins)
                     if isinstance(r, Forks): self.apply_forks(st, work, r, ins['dst'])
                     elif ins['dst'] is not None: fr.loc[ins['dst']] = r
                 elif name.startswith('llvm.'):
